@@ -77,7 +77,24 @@ func NewIdxNodeAfterSmallerEpoch(vals *pos.Validators, cfg vecfc.IndexConfig) *I
 func (n *IdxNode) CrossReset(alt []dag.Event) (crit string) {
 	pv := catch(func() {
 		other := kv.New()
-		n.Index.Reset(n.Vals, other, n.getEvent)
+		// the other database is indexed under another weight distribution of the same members (one of the
+		// lightest made a dictator): forkless-cause answers computed there must not survive the Reset back
+		otherVals := n.Vals
+		if ids := n.Vals.SortedIDs(); len(ids) > 1 {
+			light := ids[0]
+			for _, id := range ids {
+				if n.Vals.Get(id) <= n.Vals.Get(light) {
+					light = id
+				}
+			}
+			b := pos.NewBuilder()
+			for _, id := range ids {
+				b.Set(id, n.Vals.Get(id))
+			}
+			b.Set(light, 3*n.Vals.TotalWeight())
+			otherVals = b.Build()
+		}
+		n.Index.Reset(otherVals, other, n.getEvent)
 		for _, e := range alt {
 			if err := n.Index.Add(e); err != nil {
 				panic(err)
@@ -87,6 +104,9 @@ func (n *IdxNode) CrossReset(alt []dag.Event) (crit string) {
 		// warm the caches with the other database's vectors
 		for _, e := range alt {
 			n.Index.GetMergedHighestBefore(e.ID())
+			for _, b := range alt {
+				n.Index.ForklessCause(e.ID(), b.ID())
+			}
 		}
 		n.Index.Reset(n.Vals, n.DB, n.getEvent)
 	})
